@@ -73,7 +73,16 @@ func init() {
 						ps = append(ps, Param{Name: fmt.Sprintf("healthy-p%d-t%d-sp%d-%s", c.pc, c.tc, sp, sh), Bound: b,
 							V: map[string]int{"pc": c.pc, "tc": c.tc, "sp": sp}, S: map[string]string{"shape": sh, "mode": "healthy"}})
 					}
-					for _, at := range []string{"idle", "pending"} {
+					// healthy link *after one reconnect* (the keepalive machinery must be re-armed on
+					// the new connection)
+					for _, sh := range []string{"call-2.5", "idle-7"} {
+						if c.pc > 2 && tier != "thorough" && sh == "idle-7" {
+							continue
+						}
+						ps = append(ps, Param{Name: fmt.Sprintf("healthy2-p%d-t%d-sp%d-%s", c.pc, c.tc, sp, sh), Bound: 0,
+							V: map[string]int{"pc": c.pc, "tc": c.tc, "sp": sp, "after_reconnect": 1}, S: map[string]string{"shape": sh, "mode": "healthy"}})
+					}
+					for _, at := range []string{"idle", "pending", "busy", "busy-early"} {
 						ps = append(ps, Param{Name: fmt.Sprintf("silent-p%d-t%d-sp%d-%s", c.pc, c.tc, sp, at), Bound: 0,
 							V: map[string]int{"pc": c.pc, "tc": c.tc, "sp": sp}, S: map[string]string{"shape": at, "mode": "silent"}})
 					}
@@ -121,17 +130,27 @@ func keepaliveBody(s *vsched.Sched, p Param) {
 		return n
 	}
 	probeAllowed := false
+	workAllowed := p.I("after_reconnect") == 0
 	var done atomic.Bool
 	s.EnvEnabled = func(name string) bool {
 		switch name {
 		case "bh-go":
+			if shape == "busy-early" {
+				return has("iss-call") // before the first pong round
+			}
 			return s.Now() >= 5*pc/2 && (shape == "idle" || has("iss-call"))
+		case "work-go":
+			return workAllowed
 		case "probe-go":
 			return probeAllowed
 		}
 		return true
 	}
 	s.OnQuiesce = func() bool {
+		if !workAllowed && okDials() >= 2 {
+			workAllowed = true // the reconnect has completed; from now on the link must stay up
+			return true
+		}
 		// the scenario is over once the workload has finished (healthy) or the probe has
 		// returned (silent) and everything has settled; ping loops never go quiescent
 		if (mode == "healthy" && done.Load()) || has("probe") {
@@ -149,8 +168,15 @@ func keepaliveBody(s *vsched.Sched, p Param) {
 		if mode != "healthy" || done.Load() {
 			return
 		}
-		cc, sc := w.Net.Link(0).ClosedEnds()
-		if cc || sc || len(w.Net.Dials()) > 1 {
+		li, maxDials := 0, 1
+		if p.I("after_reconnect") == 1 {
+			if !workAllowed {
+				return
+			}
+			li, maxDials = 1, 2
+		}
+		cc, sc := w.Net.Link(li).ClosedEnds()
+		if cc || sc || len(w.Net.Dials()) > maxDials {
 			s.Violate("C17: the library dropped a healthy connection (client closed=%v, server closed=%v, dials=%d) at %v with ping=%v timeout=%v server-ping=%v during %s",
 				cc, sc, len(w.Net.Dials()), s.Now(), pc, tc, sp, shape)
 			done.Store(true)
@@ -164,10 +190,10 @@ func keepaliveBody(s *vsched.Sched, p Param) {
 				s.Violate("C17: the workload (%s) failed on a healthy connection: %s", shape, v)
 			}
 		} else {
-			if bhAt == 0 {
+			if k, _ := w.Net.Link(0).Fault(); k != vnet.Blackhole {
 				s.Violate("HARNESS: the blackhole never struck")
 			}
-			if shape == "pending" {
+			if shape != "idle" {
 				v, ok := obs.Get("ret")
 				if !ok {
 					s.Violate("C17: the pending call was never failed after the peer fell silent at %v (timeout %v); alive: %s", bhAt, tc, strings.Join(s.Alive(), " "))
@@ -195,13 +221,28 @@ func keepaliveBody(s *vsched.Sched, p Param) {
 		s.SetObs(obs.String())
 	}
 	s.Begin()
+	if p.I("after_reconnect") == 1 {
+		s.Go("acut", func() { w.Net.Link(0).Sever(vnet.FIN) })
+	}
 	switch {
 	case mode == "silent":
-		if shape == "pending" {
+		if shape != "idle" {
 			s.Go("caller", func() {
 				obs.Set("iss-call", "1")
 				_, err := cli.Slow(context.Background(), 1, ms(100))
 				obs.Set("ret", "%d %s", s.Now(), errClass(err))
+			})
+		}
+		if strings.HasPrefix(shape, "busy") {
+			// an application that keeps polling: a new call more often than the timeout, so the
+			// main loop never idles; only the read deadline can notice the silent peer
+			s.Go("poller", func() {
+				s.Env("bh-go")
+				for i := 0; i < 12 && !has("probe"); i++ {
+					time.Sleep(tc / 3)
+					i := i
+					s.Go(fmt.Sprintf("poll-%d", i), func() { cli.Slow(context.Background(), 20+i, 1) })
+				}
 			})
 		}
 		s.Go("zbh", func() {
@@ -218,6 +259,7 @@ func keepaliveBody(s *vsched.Sched, p Param) {
 		var f float64
 		fmt.Sscanf(shape, "call-%g", &f)
 		s.Go("caller", func() {
+			s.Env("work-go")
 			v, err := cli.Slow(context.Background(), 1, ms(f))
 			done.Store(true)
 			if err == nil && v == 1 {
@@ -228,6 +270,7 @@ func keepaliveBody(s *vsched.Sched, p Param) {
 		})
 	case shape == "idle-7":
 		s.Go("caller", func() {
+			s.Env("work-go")
 			time.Sleep(7 * tc)
 			v, err := cli.Slow(context.Background(), 1, 1)
 			done.Store(true)
@@ -239,6 +282,7 @@ func keepaliveBody(s *vsched.Sched, p Param) {
 		})
 	case shape == "ticks":
 		s.Go("caller", func() {
+			s.Env("work-go")
 			n := 7
 			ch, err := cli.Ticks(subCtx, n, ms(0.8))
 			if err != nil {
